@@ -159,6 +159,16 @@ def r2_apit(text, m, ed, fns, dyn_too=False):
         k = 0
         while k < len(ptoks):
             t = ptoks[k]
+            if t.kind == "id" and t.text == "dyn" and dyn_too:
+                # only `&dyn Tr` that IS the parameter's type; a `dyn` nested in generic arguments (`Vec<&dyn Tr>`) is left alone
+                depth_angle = sum(1 for q in ptoks[:k] if q.kind == "p" and q.text == "<") - sum(1 for i2, q in enumerate(ptoks[:k]) if q.kind == "p" and q.text == ">" and ptoks[i2 - 1].text != "-")
+                # restart the count at the last top-level comma: count only within this parameter
+                last_comma = max([i2 for i2, q in enumerate(ptoks[:k]) if q.kind == "p" and q.text == ","] + [-1])
+                seg = ptoks[last_comma + 1:k]
+                depth_angle = sum(1 for q in seg if q.kind == "p" and q.text == "<") - sum(1 for i2, q in enumerate(seg) if q.kind == "p" and q.text == ">" and (i2 == 0 or seg[i2 - 1].text != "-"))
+                if depth_angle > 0:
+                    k += 1
+                    continue
             if t.kind == "id" and (t.text == "impl" or (dyn_too and t.text == "dyn")):
                 # bound extends to ',' / ')' / '>' at relative depth 0
                 d, a, q = 0, 0, k + 1
